@@ -30,6 +30,9 @@ Inductive instr :=
 | IThrowZeroStep
 | IHalt
 | IPrintSetPrinterType | IPrintSetFormat | IPrintComma | IPrintSemi | IPrintValue | IPrintEnd
+(* calls of the built-in subs DATA and READ *)
+| IBeginCollect | IPushUnnamedByVal | IPushUnnamedByRef | IPushStack | IPopStack
+| IBuiltinData | IBuiltinRead | IEnqueue (i : nat) | IDequeue
 | IOther.
 
 Definition ipos := (instr * pos)%type.
@@ -71,7 +74,11 @@ Definition instr_eqb (a b : instr) : bool :=
   | ICopyCToB, ICopyCToB | ICopyDToA, ICopyDToA | ICopyDToB, ICopyDToB | INot, INot | INegate, INegate
   | IPushRegisters, IPushRegisters | IPopRegisters, IPopRegisters | IThrowZeroStep, IThrowZeroStep
   | IHalt, IHalt | IPrintSetPrinterType, IPrintSetPrinterType | IPrintSetFormat, IPrintSetFormat
-  | IPrintComma, IPrintComma | IPrintSemi, IPrintSemi | IPrintValue, IPrintValue | IPrintEnd, IPrintEnd => true
+  | IPrintComma, IPrintComma | IPrintSemi, IPrintSemi | IPrintValue, IPrintValue | IPrintEnd, IPrintEnd
+  | IBeginCollect, IBeginCollect | IPushUnnamedByVal, IPushUnnamedByVal | IPushUnnamedByRef, IPushUnnamedByRef
+  | IPushStack, IPushStack | IPopStack, IPopStack | IBuiltinData, IBuiltinData | IBuiltinRead, IBuiltinRead
+  | IDequeue, IDequeue => true
+  | IEnqueue x, IEnqueue y => Nat.eqb x y
   | IBin x, IBin y => bop_eqb x y
   | ICast x, ICast y | IAlloc x, IAlloc y => qual_eqb x y
   | ILabel x, ILabel y => label_eqb x y
